@@ -739,6 +739,16 @@ func genC08(t *rapid.T) C08Case {
 			c.Pattern = strings.Replace(kept[0].Rel, "x", "?", 1)
 		}
 		c.Pairs = kept
+		if len(c.Pairs) >= 2 && rapid.IntRange(0, 5).Draw(t, "globSubtleMismatch") == 0 {
+			// an earlier matched file whose destination is created by this run, then a later one whose existing
+			// destination has another layout: the run must fail and leave that destination as it was (round 10, C08s)
+			last := len(c.Pairs) - 1
+			if rapid.IntRange(0, 3).Draw(t, "firstAbsent") != 0 {
+				c.Pairs[0].DestMode = "absent"
+			}
+			c.Pairs[last].DestMode = "subtle-mismatch"
+			c.Pairs[last].DestWrites = genWrites(t, subtleLayoutVariant(l), now, valGeneral, 0)
+		}
 	} else {
 		c.Pairs = []CopyPair{genCopyPair(t, l, now, rapid.SampledFrom(relNames).Draw(t, "rel"), true)}
 		if rapid.IntRange(0, 11).Draw(t, "subtleMismatch") == 0 {
@@ -787,7 +797,7 @@ func TestC08(t *testing.T) {
 	RunProperty(t, Property[C08Case]{
 		NoteCases:   true,
 		ID:          "C08",
-		Rule:        "rapid-generated copy invocations at a controlled wall clock (synctest bubble): layout x method x xff; source contents sparse/dense with NaN holes and coarser archives written by name (not the aggregate of finer ones); destination absent / fresh / identical / perturbed / unrelated / equal in every coarser archive but different in finer slots; windows default, narrow, past, beyond the finest retention, degenerate, explicit; all archives or one; copy-nan on/off; single file (optionally renamed) or glob over 2-4 files in nested directories; requested layout equal, differing only in method/xff, or mismatching. Oracle (library fetches at the same clock): every selected slot of the window holds the source's value where it has one, NaN where it has none under copy-nan; source bytes unchanged; created destinations carry the requested header; a repeated copy leaves the bytes unchanged; diff afterwards lists no slot where the source has a value (and nothing at all under copy-nan); mismatch => error and no points written. Non-trivial: >=1 slot actually copied AND (a coarser slot equal before the copy above differing finer slots, or a NaN hole in the window, or a fresh/absent destination, or a window edge inside an archive). Distinct = hash of the case.",
+		Rule:        "rapid-generated copy invocations at a controlled wall clock (synctest bubble): layout x method x xff; source contents sparse/dense with NaN holes and coarser archives written by name (not the aggregate of finer ones); destination absent / fresh / identical / perturbed / unrelated / equal in every coarser archive but different in finer slots; windows default, narrow, past, beyond the finest retention, degenerate, explicit; all archives or one; copy-nan on/off; single file (optionally renamed) or glob over 2-4 files in nested directories; requested layout equal, differing only in method/xff, or mismatching. Oracle (library fetches at the same clock): every selected slot of the window holds the source's value where it has one, NaN where it has none under copy-nan; source bytes unchanged; created destinations carry the requested header; a repeated copy leaves the bytes unchanged; diff afterwards lists no slot where the source has a value (and nothing at all under copy-nan); mismatch => error and no points written (also when the mismatching destination belongs to a later file of a glob run that created an earlier file's destination: it must still be there, byte for byte). Non-trivial: >=1 slot actually copied AND (a coarser slot equal before the copy above differing finer slots, or a NaN hole in the window, or a fresh/absent destination, or a window edge inside an archive). Distinct = hash of the case.",
 		Assumptions: []string{"+0 vs -0 is not distinguished (Z4)", "slots where the source has no value are unconstrained without copy-nan", "realistic clocks 2017-2030"},
 		Gen:         genC08,
 		Run:         runC08,
